@@ -1,9 +1,424 @@
 package main
 
+// gvc check --property Cxx --tier quick|thorough : the registered check of one property.
+
 import (
+	"encoding/json"
+	"flag"
 	"fmt"
 	"os"
+	"path/filepath"
+	"regexp"
+	"sort"
+	"strconv"
+	"strings"
+	"time"
 )
 
-func cmdCheck(args []string)  { fmt.Println("not yet"); os.Exit(2) }
-func cmdReplay(args []string) { fmt.Println("not yet"); os.Exit(2) }
+const verifDir = "/verif"
+
+type propConfig struct {
+	Property    string   `json:"property"`
+	Title       string   `json:"title"`
+	Lemma       string   `json:"lemma"`
+	Assumptions []string `json:"assumptions"`
+	NotCovered  []string `json:"not_covered"`
+	TrustedBase []string `json:"trusted_base"`
+	SweepCreate bool     `json:"sweep_create"` // also check every creation site of createinv types in functions without contract
+	NotClaimed  []struct {
+		Obligation string `json:"obligation"`
+		Reason     string `json:"reason"`
+	} `json:"not_claimed"`
+	Claimed []string `json:"claimed"` // obligation base names that discharge on the unchanged tree
+}
+
+type knownFinding struct {
+	Property   string `json:"property"`
+	Obligation string `json:"obligation"`
+	What       string `json:"what"`
+	Status     string `json:"status"` // known | fixed
+	Commit     string `json:"commit,omitempty"`
+	Line       string `json:"line,omitempty"`
+}
+
+type replayFile struct {
+	Property   string   `json:"property"`
+	Obligation string   `json:"obligation"`
+	Function   string   `json:"function"`
+	Clause     string   `json:"clause"`
+	Pos        string   `json:"pos"`
+	Status     string   `json:"solver_status"`
+	Solver     string   `json:"solver"`
+	Tried      []string `json:"tried"`
+	Model      string   `json:"model,omitempty"`
+	SolverOut  string   `json:"solver_output,omitempty"`
+	Replay     string   `json:"replay_verdict"` // reproduced | not-reproduced | no-adapter | no-model
+	TestSource string   `json:"test_source,omitempty"`
+	TestOutput string   `json:"test_output,omitempty"`
+	Reason     string   `json:"reason,omitempty"`
+}
+
+var baseNameRe = regexp.MustCompile(`~\d+\]$`)
+
+func baseName(ob string) string { return baseNameRe.ReplaceAllString(ob, "]") }
+
+func cmdCheck(args []string) {
+	fs := flag.NewFlagSet("check", flag.ExitOnError)
+	repo := fs.String("repo", "/repo", "repository root")
+	prop := fs.String("property", "", "property id")
+	tier := fs.String("tier", os.Getenv("VERIF_TIER"), "quick|thorough")
+	update := fs.Bool("update-claimed", false, "rewrite the claimed obligation list from this run (maintainer use, unchanged tree only)")
+	keep := fs.String("keep-smt", "", "directory to keep SMT files")
+	cover := fs.Bool("cover", false, "run the vacuity (cover) checks also in quick tier")
+	fs.Parse(args)
+	if *tier == "" {
+		*tier = "quick"
+	}
+	seed, _ := strconv.Atoi(os.Getenv("VERIF_SEED"))
+	t0 := time.Now()
+	cfg := &propConfig{Property: *prop}
+	if data, err := os.ReadFile(filepath.Join(verifDir, "props", *prop+".json")); err == nil {
+		if err := json.Unmarshal(data, cfg); err != nil {
+			fmt.Fprintln(os.Stderr, "bad props file:", err)
+			os.Exit(2)
+		}
+	} else {
+		fmt.Fprintln(os.Stderr, "no props file for", *prop)
+		os.Exit(2)
+	}
+	var known []knownFinding
+	if data, err := os.ReadFile(filepath.Join(verifDir, "known_findings.json")); err == nil {
+		var kf struct {
+			Findings []knownFinding `json:"findings"`
+		}
+		json.Unmarshal(data, &kf)
+		known = kf.Findings
+	}
+	timeout := 20
+	if *tier == "thorough" {
+		timeout = 60
+	}
+	g, err := loadAll(*repo)
+	var violations []*replayFile
+	if err != nil {
+		// A contract that no longer type-checks against the tree is a failed #contract-applies
+		// obligation; a tree that does not build at all decides nothing.
+		inContracts := false
+		if g != nil {
+			for _, e := range g.loadErrs {
+				if strings.Contains(e, "zz_verif_") {
+					inContracts = true
+				}
+			}
+			if len(g.loadErrs) == 0 {
+				inContracts = false
+			}
+			for _, e := range g.loadErrs {
+				if !strings.Contains(e, "zz_verif_") {
+					inContracts = false
+				}
+			}
+		}
+		if !inContracts {
+			fmt.Println("CANNOT-CHECK: tree does not build:", err)
+			os.Exit(2)
+		}
+		rf := &replayFile{Property: *prop, Obligation: "contracts#contract-applies", Status: "type-error", Replay: "no-model", Reason: err.Error()}
+		violations = append(violations, rf)
+		finish(*prop, *tier, seed, cfg, nil, nil, violations, nil, t0, 0)
+		return
+	}
+	var frs []*FuncResult
+	var todo []*Contract
+	var ifaceUsed, trustedUsed []string
+	for _, c := range g.cs.All {
+		has := false
+		for _, p := range c.Props {
+			if p == *prop {
+				has = true
+			}
+		}
+		if !has {
+			continue
+		}
+		if c.IsIface {
+			if c.Flags["trusted"] {
+				ifaceUsed = append(ifaceUsed, c.Func)
+			} else {
+				todo = append(todo, g.ifaceImpls(c)...)
+			}
+			continue
+		}
+		if c.Flags["trusted"] {
+			trustedUsed = append(trustedUsed, c.Func)
+			continue
+		}
+		if c.Flags["pure"] || c.Flags["uninterpreted"] {
+			continue
+		}
+		todo = append(todo, c)
+	}
+	if cfg.SweepCreate {
+		todo = append(todo, g.sweepContracts("")...)
+	}
+	frs = g.verifyAll(todo)
+	notClaimed := map[string]bool{}
+	for _, nc := range cfg.NotClaimed {
+		notClaimed[nc.Obligation] = true
+	}
+	dir := *keep
+	if dir == "" {
+		dir, _ = os.MkdirTemp("", "gvc-smt-")
+		defer os.RemoveAll(dir)
+	} else {
+		os.MkdirAll(dir, 0o755)
+	}
+	var obs []*Oblig
+	pres := map[*Exec][2]string{}
+	for _, fr := range frs {
+		if fr.Ex != nil {
+			pres[fr.Ex] = [2]string{fr.Pre, fr.PreExact}
+		}
+		for _, o := range fr.Obligs {
+			if fr.Con.Flags["sweep"] && o.Kind != "create" && o.Kind != "pre" {
+				continue
+			}
+			if notClaimed[baseName(o.Name)] {
+				continue
+			}
+			obs = append(obs, o)
+		}
+	}
+	solveAll(obs, pres, timeout, 16, *tier == "thorough", dir)
+	coverN := 0
+	if *tier == "thorough" || *cover {
+		vac, n := coverCheck(obs, pres, 5, dir)
+		coverN = n
+		for _, v := range vac {
+			fmt.Printf("ENGINE-ERROR: vacuous premises at %s (contradictory requires/invariants/assumptions)\n", v)
+		}
+		if len(vac) > 0 {
+			os.Exit(2)
+		}
+	}
+	_ = coverN
+
+	// contract-applies: functions that left the verified subset, contracts with errors
+	for _, fr := range frs {
+		if len(fr.Unsupported) > 0 {
+			rf := &replayFile{Property: *prop, Obligation: fr.Name + "#contract-applies", Function: fr.Name, Status: "outside-subset", Replay: "no-model", Reason: strings.Join(fr.Unsupported, "; ")}
+			violations = append(violations, rf)
+		}
+	}
+	for _, er := range g.cs.Errors {
+		violations = append(violations, &replayFile{Property: *prop, Obligation: "contracts#contract-applies", Status: "contract-error", Replay: "no-model", Reason: er})
+	}
+	// claimed obligations must all be generated
+	gen := map[string]bool{}
+	for _, o := range obs {
+		gen[baseName(o.Name)] = true
+	}
+	if !*update {
+		for _, cl := range cfg.Claimed {
+			if !gen[cl] {
+				violations = append(violations, &replayFile{Property: *prop, Obligation: cl + "#contract-applies", Status: "not-generated", Replay: "no-model", Reason: "claimed obligation was not generated from the current tree (carrier renamed/removed, or its shape left the verified subset)"})
+			}
+		}
+	}
+	var failed []*Oblig
+	for _, o := range obs {
+		if o.Res == nil || o.Res.Status != "unsat" {
+			failed = append(failed, o)
+		}
+	}
+	var knownLines []string
+	for _, o := range failed {
+		rf := &replayFile{Property: *prop, Obligation: o.Name, Function: o.Func, Pos: o.Pos, Status: o.Res.Status, Solver: o.Res.Solver, Tried: o.Res.Tried, Model: o.Res.Model}
+		if o.Clause != nil {
+			rf.Clause = o.Clause.Kind + " " + o.Clause.Text
+		}
+		if o.Res.Status != "sat" {
+			out := o.Res.Output
+			if len(out) > 2000 {
+				out = out[:2000]
+			}
+			rf.SolverOut = out
+		}
+		g.replay(o, rf)
+		isKnown := false
+		for _, k := range known {
+			if k.Status == "known" && k.Property == *prop && k.Obligation == baseName(o.Name) {
+				isKnown = true
+				knownLines = append(knownLines, fmt.Sprintf("KNOWN-FINDING: property=%s %s (%s)", *prop, k.What, k.Obligation))
+			}
+		}
+		if !isKnown {
+			violations = append(violations, rf)
+		}
+	}
+	if *update {
+		var names []string
+		seen := map[string]bool{}
+		slow := map[string]bool{}
+		for _, o := range obs {
+			if o.Res != nil && o.Res.Status == "unsat" && o.Res.TimeS > 8 {
+				fmt.Printf("not claimed (slow, %.1fs): %s\n", o.Res.TimeS, o.Name)
+				slow[baseName(o.Name)] = true
+			}
+		}
+		for _, o := range obs {
+			if o.Res != nil && o.Res.Status == "unsat" && !seen[baseName(o.Name)] && !slow[baseName(o.Name)] {
+				seen[baseName(o.Name)] = true
+				names = append(names, baseName(o.Name))
+			}
+		}
+		sort.Strings(names)
+		have := map[string]bool{}
+		for _, nc := range cfg.NotClaimed {
+			have[nc.Obligation] = true
+		}
+		for _, o := range obs {
+			bn := baseName(o.Name)
+			if (o.Res == nil || o.Res.Status != "unsat" || slow[bn]) && !have[bn] && !seen[bn] {
+				have[bn] = true
+				reason := "not discharged on the unchanged tree when the claimed set was recorded (" + o.Res.Status + "): needs an invariant that is not contracted yet; undecided, not a violation"
+				if slow[bn] {
+					reason = "discharges, but too slowly to be claimed (unstable near the timeout)"
+				}
+				cfg.NotClaimed = append(cfg.NotClaimed, struct {
+					Obligation string `json:"obligation"`
+					Reason     string `json:"reason"`
+				}{bn, reason})
+			}
+		}
+		cfg.Claimed = names
+		data, _ := json.MarshalIndent(cfg, "", " ")
+		os.WriteFile(filepath.Join(verifDir, "props", *prop+".json"), append(data, '\n'), 0o644)
+		fmt.Printf("claimed set updated: %d obligation names\n", len(names))
+	}
+	sort.Strings(knownLines)
+	prev := ""
+	for _, l := range knownLines {
+		if l != prev {
+			fmt.Println(l)
+		}
+		prev = l
+	}
+	finish(*prop, *tier, seed, cfg, frs, obs, violations, append(ifaceUsed, trustedUsed...), t0, len(knownLines))
+}
+
+func finish(prop, tier string, seed int, cfg *propConfig, frs []*FuncResult, obs []*Oblig, violations []*replayFile, assumedContracts []string, t0 time.Time, nKnown int) {
+	// evidence
+	discharged := 0
+	byBackend := map[string]int{}
+	solverTime := 0.0
+	var samples []interface{}
+	for _, o := range obs {
+		if o.Res != nil {
+			solverTime += o.Res.TimeS
+			if o.Res.Status == "unsat" {
+				discharged++
+				byBackend[o.Res.Solver]++
+			}
+			if len(samples) < 12 {
+				samples = append(samples, map[string]interface{}{"obligation": o.Name, "status": o.Res.Status, "solver": o.Res.Solver, "time_s": round2(o.Res.TimeS), "pos": o.Pos})
+			}
+		}
+	}
+	var funcs []string
+	notes := map[string]bool{}
+	var assumptions []string
+	for _, fr := range frs {
+		funcs = append(funcs, fr.Name)
+		for _, n := range fr.Notes {
+			notes[n] = true
+		}
+	}
+	assumptions = append(assumptions, cfg.Assumptions...)
+	for _, n := range sortedKeys(notes) {
+		assumptions = append(assumptions, n)
+	}
+	for _, a := range assumedContracts {
+		assumptions = append(assumptions, "assumed contract (not verified here): "+a)
+	}
+	for _, nc := range cfg.NotCovered {
+		assumptions = append(assumptions, "not covered: "+nc)
+	}
+	if len(samples) == 0 {
+		samples = append(samples, "no obligations generated")
+	}
+	cov := map[string]interface{}{
+		"obligations":              len(obs),
+		"discharged":               discharged,
+		"checker_cmd":              fmt.Sprintf("/verif/bin/gvc check --property %s --tier %s", prop, tier),
+		"trusted_base":             append([]string{"golang.org/x/tools/go/ssa (SSA construction)", "gvc SSA->SMT translation (guarded by must-fail mutants)", "z3 5.1.0 / z3 4.8.12 / cvc5 1.0.3"}, cfg.TrustedBase...),
+		"samples":                  samples,
+		"functions_under_contract": funcs,
+		"obligations_by_backend":   byBackend,
+		"solver_time_s":            round2(solverTime),
+		"known_findings_reported":  nKnown,
+		"lemma":                    cfg.Lemma,
+	}
+	ev := map[string]interface{}{
+		"property_id": prop,
+		"tier":        tier,
+		"seed":        seed,
+		"level":       "proof",
+		"coverage":    cov,
+		"assumptions": assumptions,
+		"wall_s":      round2(time.Since(t0).Seconds()),
+		"violations":  len(violations),
+	}
+	os.MkdirAll(filepath.Join(verifDir, "evidence"), 0o755)
+	data, _ := json.MarshalIndent(ev, "", " ")
+	os.WriteFile(filepath.Join(verifDir, "evidence", prop+".json"), append(data, '\n'), 0o644)
+	if len(violations) == 0 {
+		fmt.Printf("OK property=%s obligations=%d discharged=%d functions=%d wall=%.1fs\n", prop, len(obs), discharged, len(funcs), time.Since(t0).Seconds())
+		os.Exit(0)
+	}
+	rdir := filepath.Join(verifDir, "replays", prop)
+	os.RemoveAll(rdir)
+	os.MkdirAll(rdir, 0o755)
+	for _, v := range violations {
+		name := sanitize(v.Obligation)
+		if len(name) > 120 {
+			name = name[:120]
+		}
+		path := filepath.Join(rdir, name+".json")
+		data, _ := json.MarshalIndent(v, "", " ")
+		os.WriteFile(path, append(data, '\n'), 0o644)
+		suffix := ""
+		if v.Replay != "reproduced" {
+			suffix = " no-failing-input-found"
+		}
+		fmt.Printf("FAILED-OBLIGATION %s (%s; replay: %s)\n", v.Obligation, v.Status, v.Replay)
+		fmt.Printf("VIOLATION property=%s replay=%s%s\n", prop, path, suffix)
+	}
+	os.Exit(1)
+}
+
+func round2(f float64) float64 { return float64(int(f*100+0.5)) / 100 }
+
+func cmdReplay(args []string) {
+	if len(args) < 1 {
+		fmt.Fprintln(os.Stderr, "usage: gvc replay <replay.json>")
+		os.Exit(2)
+	}
+	data, err := os.ReadFile(args[0])
+	if err != nil {
+		fmt.Fprintln(os.Stderr, err)
+		os.Exit(2)
+	}
+	var rf replayFile
+	json.Unmarshal(data, &rf)
+	fmt.Printf("obligation: %s\nclause: %s\nsolver: %s (%s)\nmodel: %s\n", rf.Obligation, rf.Clause, rf.Status, rf.Solver, rf.Model)
+	if rf.TestSource == "" {
+		fmt.Println("no replay test stored:", rf.Replay, rf.Reason)
+		os.Exit(1)
+	}
+	out, _ := runReplayTest("/repo", rf.TestSource, "")
+	fmt.Println(out)
+	if strings.Contains(out, "GVC-REPLAY: VIOLATED") {
+		os.Exit(1)
+	}
+}
